@@ -950,7 +950,9 @@ void apply_logic_net(bool const *inp, {BITS_TO_DTYPE[32]} *out, size_t len) {{
         for i in range(batch_size):
             self.lib_fn(x_flat[i], out[i])
 
-        return torch.tensor(out)
+        # each sample occupies bit lane 0 of its words; the higher lanes hold
+        # the complement bits of inverting gates and are not part of the result
+        return torch.tensor(out & 1)
 
     @staticmethod
     def load(save_lib_path: str, input_shape: tuple, num_classes: int = None, num_bits: int = 64):
